@@ -610,7 +610,6 @@ def _r2_jacobian(ctx):
             # second accepted idiom (linear simplex only): J = (C[1:] - C[0]).T with C = <frame>.iloc[:n, :3] as an array, i.e.
             # J[i][j] = x_(j+2),i - x_1,i - possibly inside an extracted private helper
             from ..inline import inlined
-            from ..astutil import inline_single_defs
             compi = inlined(prog, comp)
             for s_ in walk_function(compi.node):
                 if not (isinstance(s_, ast.Assign) and isinstance(s_.targets[0], ast.Name)):
@@ -727,8 +726,10 @@ def _r2_jacobian(ctx):
         avar = norm_text(dcall[0].args[1])
         kvar = norm_text(res[0].target.slice)
         idx = [norm_text(x) for x in sub[0].slice.elts] if isinstance(sub[0].slice, ast.Tuple) else []
-        val_idx = [n for n in ast.walk(res[0].value) if isinstance(n, ast.Subscript) and isinstance(n.value, ast.Attribute)
-                   and n.value.attr == "iloc"]
+        val_idx = [n for n in ast.walk(inline_single_defs(single.node, res[0].value)) if isinstance(n, ast.Subscript) and
+                   isinstance(n.value, ast.Attribute) and n.value.attr == "iloc"]
+        if not val_idx or len(idx) != 2:
+            raise AnalysisError("%s: nodal value / Jinv subscript of the contraction not recognised" % shape)
         if idx == [jvar, kvar] and val_idx and norm_text(val_idx[0].slice) == avar:
             ctx.holds(single, sub[0], "%s: d/dx_k = sum_a u_a sum_j dphi_a/dxi_j * Jinv[j,k]" % shape)
         else:
